@@ -635,7 +635,7 @@ def rle_of(arr):
 
 def numclose(a, b, rel=1e-9):
     a, b = float(a), float(b)
-    return a == b or abs(a - b) <= rel * max(abs(a), abs(b)) + 1e-300
+    return a == b or abs(a - b) <= rel * max(abs(a), abs(b)) + 1e-15
 
 
 def arrclose(a, b):
